@@ -61,7 +61,8 @@ def rows(mods):
     row(src='it.aic', name='from_base32', conv=lambda m, x: m.from_base32(x), tgt='it.aic', guard=lambda v: len(v) == 6,
         ident=lambda v, r: True, inv=lambda mods, r: M(mods, 'it.aic').to_base32(r))
     row(src='ie.vat', name='convert', conv=lambda m, x: m.convert(x), tgt='ie.vat',
-        ident=lambda v, r: (r == v) if v[:7].isdigit() else (len(r) in (8, 9) and r[:7].isdigit() and r[1:6] == v[2:7] and r[6] == v[0] and r[7:] == v[7:]))
+        # the docstring promises the conversion for the old style 8 character form only; a 9 character number is returned as is
+        ident=lambda v, r: (r == v) if (v[:7].isdigit() or len(v) != 8) else (len(r) == 8 and r[:7].isdigit() and r[1:6] == v[2:7] and r[6] == v[0] and r[7:] == v[7:]))
     row(src='isan', name='validate(add_check_digits)', conv=lambda m, x: m.validate(x, add_check_digits=True), tgt='isan',
         ident=lambda v, r: _isan_core(r) == _isan_core(v),
         inv=lambda mods, r: M(mods, 'isan').validate(r, strip_check_digits=True), inv_eq=lambda v, b: _isan_core(b) == _isan_core(v))
